@@ -71,7 +71,60 @@ func floatNum(f float64) Num {
 // reference builds it) to canonical form: maps, lists, string, bool, nil, Num.
 // Values of other kinds are rendered as Opaque so they never compare equal to
 // a legitimate value by accident.
-func Canon(v interface{}) interface{} {
+func Canon(v interface{}) interface{} { return canonDepth(v, 0) }
+
+// Cyclic reports whether a response-shaped value contains itself (a map or slice reachable from itself): such a value
+// cannot be serialised, and walking it would never end.
+func Cyclic(v interface{}) bool {
+	onPath := map[uintptr]bool{}
+	var walk func(v interface{}, depth int) bool
+	walk = func(v interface{}, depth int) bool {
+		if depth > 100000 {
+			return true
+		}
+		var p uintptr
+		switch t := v.(type) {
+		case map[string]interface{}:
+			if t == nil {
+				return false
+			}
+			p = reflect.ValueOf(t).Pointer()
+			if onPath[p] {
+				return true
+			}
+			onPath[p] = true
+			for _, e := range t {
+				if walk(e, depth+1) {
+					return true
+				}
+			}
+			delete(onPath, p)
+		case []interface{}:
+			if len(t) == 0 {
+				return false
+			}
+			p = reflect.ValueOf(t).Pointer()
+			// two slices may share a backing array start without being the same list; a genuine cycle revisits it while it is still on the path
+			if onPath[p] {
+				return true
+			}
+			onPath[p] = true
+			for _, e := range t {
+				if walk(e, depth+1) {
+					return true
+				}
+			}
+			delete(onPath, p)
+		}
+		return false
+	}
+	return walk(v, 0)
+}
+
+func canonDepth(v interface{}, depth int) interface{} {
+	if depth > 100000 {
+		return Opaque("deeper than 100000 levels (cyclic?)")
+	}
 	if v == nil {
 		return nil
 	}
@@ -88,13 +141,13 @@ func Canon(v interface{}) interface{} {
 	case map[string]interface{}:
 		o := make(map[string]interface{}, len(t))
 		for k, e := range t {
-			o[k] = Canon(e)
+			o[k] = canonDepth(e, depth+1)
 		}
 		return o
 	case []interface{}:
 		o := make([]interface{}, len(t))
 		for i, e := range t {
-			o[i] = Canon(e)
+			o[i] = canonDepth(e, depth+1)
 		}
 		return o
 	case time.Time:
@@ -114,7 +167,7 @@ func Canon(v interface{}) interface{} {
 	if rv.Kind() == reflect.Slice {
 		o := make([]interface{}, rv.Len())
 		for i := range o {
-			o[i] = Canon(rv.Index(i).Interface())
+			o[i] = canonDepth(rv.Index(i).Interface(), depth+1)
 		}
 		return o
 	}
